@@ -228,7 +228,12 @@ pub fn do_writes(
                 let mid = c.text.chars().count() / 2;
                 let a: String = c.text.chars().take(mid).collect();
                 let b: String = c.text.chars().skip(mid).collect();
-                let width = (c.text.len() * 7) % 12;
+                // narrower than, equal to, wider than the name -- and far wider (tens / hundreds of columns of padding)
+                let width = match c.text.len() % 5 {
+                    0 => 40 + c.text.len() * 3,
+                    1 => 300,
+                    _ => (c.text.len() * 7) % 12,
+                };
                 w.write_list_element(&a, &b, width)?;
             }
             WKind::Title => w.write_title(&c.text)?,
